@@ -9,6 +9,11 @@ PoolDeep     == PoolThorough \cup { <<15,"i">>, <<31,"j">>, <<32,"k">>, <<2,"l">
                                     <<12,"o">>, <<20,"p">>, <<28,"q">>, <<36,"r">>, <<44,"s">>, <<63,"t">>,
                                     <<64,"u">>, <<0,"v">>, <<9,"w">>, <<10,"x">>, <<11,"y">>, <<13,"z">> }
 
+(* the top of the table: 6,14,22,30 share the last-but-one slot of the capacity-8 table and 14,30 that of the capacity-16
+   table (chains that run through the last slot and wrap to slot 0 while the table is being REHASHED); 7,15 start at the
+   last slot; 5 starts just below *)
+PoolTop      == { <<6,"a">>, <<14,"b">>, <<22,"c">>, <<30,"d">>, <<7,"e">>, <<15,"f">>, <<5,"g">> }
+
 HistLen == 34
 HistBound == Len(hist) <= HistLen
 EmitHist == (Len(hist) = HistLen) =>
